@@ -201,6 +201,8 @@ def run_property(pid, mod, tier, seed):
 
 
 def finish(pid, mod, tier, seed, total, wall, nshards):
+    if hasattr(mod, 'finalize'):
+        mod.finalize(total)
     known, fixed = load_known(pid)
     exit_code = 0
     n_viol = 0
